@@ -89,3 +89,14 @@ Example C14_examples :
   is_scalar_value 55296 = false.
 Proof. vm_compute. repeat split; reflexivity. Qed.
 Print Assumptions C14_examples.
+
+(* COPY 2 on the text "Aé\n" at level 2 of `hyeong run`: the first two characters, byte for byte *)
+Example C14_levels_example :
+  run_cli 2 (FBytes true (encode (COPY_SRC 2))) (encode [65; 233; 10]) 100 = CExit 0 [65; 195; 169] [] /\
+  (forall level, In level [0; 1; 2] ->
+     match compile_prog all_fixed true (parse (COPY_SRC 2)) level with
+     | Some p => match ir_run 100 p (lines_of [65; 233; 10]) with IDone s => rev (outb s) = [65; 233] | _ => False end
+     | None => False
+     end).
+Proof. split; [vm_compute; reflexivity|]. intros level [<-|[<-|[<-|[]]]]; vm_compute; reflexivity. Qed.
+Print Assumptions C14_levels_example.
